@@ -84,7 +84,7 @@ Definition subclass (T : tables) (c d : cname) : bool := existsb (cname_eqb d) (
 Inductive party := Self | Other.          (* the undefined under test / the other operand *)
 Inductive logev := LWarn (p : party) | LErr (p : party).
 
-Inductive bkind := KInt | KFloat | KStr | KNone | KList | KMarkup.   (* KMarkup: a markupsafe.Markup string *)
+Inductive bkind := KInt | KFloat | KStr | KNone | KList | KMarkup | KBool | KTuple | KDict | KBytes.   (* KMarkup: a markupsafe.Markup string *)
 Inductive operand := Und (c : cname) (p : party) | Blt (k : bkind).
 Inductive arg := ANone | AOp (o : operand) | AName (dunder : bool).
 
@@ -315,7 +315,7 @@ Definition rname (a : arith) : mname :=
 (* does the builtin left operand's own slot produce a result (without consulting the right
    operand's methods)?  Only str % x does: "abc" % mapping-like returns the format string. *)
 Definition builtin_handles (k : bkind) (a : arith) : bool :=
-  match k, a with KStr, Mod => true | _, _ => false end.
+  match k, a with KStr, Mod | KBytes, Mod => true | _, _ => false end.
 
 Definition binres (r : run) : option orun :=      (* None = NotImplemented / no such method *)
   match r with
